@@ -3,6 +3,7 @@ package fam
 import (
 	"flag"
 	"fmt"
+	"math/big"
 	"math/rand"
 	"os"
 
@@ -63,6 +64,19 @@ func recordMath(args []string) int {
 		anchors := [][2]string{{"sqrt", "4"}, {"sqrt", "2"}, {"sqrt", "0.25"}, {"sqrt", "1e14"}, {"sqrt", "123456789012345"}, {"exp", "0"}, {"exp", "1"}, {"exp", "(-1)"},
 			{"exp", "0.5"}, {"exp", "30"}, {"exp", "(-30)"}, {"exp", "1e-10"}, {"ln", "1"}, {"ln", "2.718281828459045"}, {"ln", "10"}, {"ln", "1e-15"}, {"ln", "1e15"},
 			{"ln", "1.000001"}, {"log", "1"}, {"log", "10"}, {"log", "1e7"}, {"log", "1e-7"}, {"log", "2"}, {"log", "999999999999999"}}
+		// exact inverses: log of every power of ten 1e-15 .. 1e15, sqrt of squares
+		for k := -15; k <= 15; k++ {
+			anchors = append(anchors, [2]string{"log", fmt.Sprintf("1e%d", k)})
+		}
+		for k := 0; k < 12; k++ {
+			nn := new(big.Int).SetInt64(rng.Int63n(99999999) + 1)
+			sq := new(big.Int).Mul(nn, nn).String()
+			if len(sq) > 15 {
+				nn.SetInt64(rng.Int63n(9999999) + 1)
+				sq = new(big.Int).Mul(nn, nn).String()
+			}
+			anchors = append(anchors, [2]string{"sqrt", sq + []string{"", "e-2", "e4", "e-10"}[k%4]})
+		}
 		for _, a := range anchors {
 			if err := add(a[0], a[1]); err != nil {
 				fmt.Fprintln(os.Stderr, err)
